@@ -429,7 +429,7 @@ c11_u2!(c11_t_unreal2_enforce_skip_players_short, Enforce, Skip, 3, 0);
 c11_u2!(c11_t_unreal2_skip_enforce_rules_wrong_kind, Skip, Enforce, 0, 2);
 c11_u2!(c11_t_unreal2_try_skip_players_wrong_kind, Try, Skip, 2, 0);
 c11_u2!(c11_t_unreal2_skip_try_rules_wrong_kind, Skip, Try, 0, 2);
-c11_u2!(c11_t_unreal2_enforce_skip_players_silent, Enforce, Skip, 1, 0);
+c11_u2!(c11_unreal2_enforce_skip_players_silent, Enforce, Skip, 1, 0);
 c11_u2!(c11_unreal2_skip_enforce_rules_bad_body, Skip, Enforce, 0, 4);
 c11_u2!(c11_t_unreal2_skip_try_rules_bad_body, Skip, Try, 0, 4);
 c11_u2!(c11_t_unreal2_skip_skip, Skip, Skip, 0, 0);
